@@ -306,8 +306,8 @@ class TimeDependentLinearPDE(LinearPDE):
         if self.observation_map is not None:
             solution_obs = self.observation_map(solution_obs)
         
-        # squeeze if only one time observation
-        if len(self._time_obs) == 1:
-            solution_obs = solution_obs.squeeze()
+        # drop the time axis if only one time observation (never the space axis: one observed node stays a 1-vector)
+        if len(self._time_obs) == 1 and solution_obs.ndim > 1:
+            solution_obs = solution_obs.squeeze(axis=-1)
 
         return solution_obs
